@@ -14,6 +14,9 @@ import (
 	storetypes "cosmossdk.io/store/types"
 	abci "github.com/cometbft/cometbft/abci/types"
 
+	htlctypes "mods.irisnet.org/modules/htlc/types"
+	"mods.irisnet.org/simapp"
+
 	"verif/sim/engine"
 )
 
@@ -24,6 +27,9 @@ type ReplicaConfig struct {
 	RestartProb float64  `json:"restart_prob"` // restarter: probability of a restart at each block boundary
 	CrashEvery  int      `json:"crash_every"`  // crashy: crash before commit every k-th block
 	ExportEvery int      `json:"export_every"` // compare exported genesis every k-th block (0: only at the end)
+	// OmitHTLCPrevTime: the genesis leaves htlc's previous_block_time unset (a hand-written
+	// genesis may): nothing may then fall back to a process-local value
+	OmitHTLCPrevTime bool `json:"omit_htlc_prev_time"`
 }
 
 // Replicas executes the recorded block stream again on fresh nodes — at another host-clock
@@ -63,6 +69,7 @@ func (m *Replicas) Configure(w *engine.World, r *engine.Rand) any {
 	c.RestartProb = []float64{1, 0.5, 0.1}[r.Intn(3)]
 	c.CrashEvery = 1 + r.Intn(7)
 	c.ExportEvery = []int{0, 0, 7, 13, 29}[r.Intn(5)]
+	c.OmitHTLCPrevTime = r.Bool(0.15)
 	return c
 }
 
@@ -70,6 +77,19 @@ func (m *Replicas) LoadConfig(w *engine.World, raw json.RawMessage) {
 	if err := json.Unmarshal(raw, &m.cfg); err != nil {
 		engine.Fatal("replicas config: %v", err)
 	}
+}
+
+// Genesis runs after the workloads' own genesis hooks.
+func (m *Replicas) Genesis(w *engine.World, n *engine.Node, gs simapp.GenesisState) {
+	if !m.cfg.OmitHTLCPrevTime {
+		return
+	}
+	cdc := n.App.AppCodec()
+	var hg htlctypes.GenesisState
+	cdc.MustUnmarshalJSON(gs[htlctypes.ModuleName], &hg)
+	hg.PreviousBlockTime = time.Time{}
+	gs[htlctypes.ModuleName] = cdc.MustMarshalJSON(&hg)
+	w.Hit("C11.genesis_without_htlc_prev_time")
 }
 
 func renderTx(r *abci.ExecTxResult) string {
